@@ -43,6 +43,11 @@ for tu, tudef in (("tcp", []), ("tls", ["-DTU_TLS"])):
            tier="thorough", unwind=18, unwindset=["try_finish_send.0:6"],
            desc=(FRAME_DESC[op] % tu) + "; content tier, payload <= 8 bytes, <= 3 partial writes per flush")
 
+    for op in ("SEND", "RECV", "FINISH"):
+        ob("frame.%s.%s.len" % (tu, op.lower()), "frame/frame.c", tudef + ["-DOP_" + op, "-DLEN_TIER", "-DLMAX=6"], FRAME_PROPS[op],
+           tier="thorough", unwind=16, unwindset=["try_finish_send.0:5"], timeout=2400,
+           desc=(FRAME_DESC[op] % tu) + "; LENGTH tier: every payload length 0..65535 (and beyond), positions/lengths/counters exact, copies of more than 8 bytes move no content (ranges still bounds-checked)")
+
 _frame_assumptions = [
     "BYTESTREAM contract of the lower socket (btcp/btls): send(len>0) accepts 1..len leading bytes or fails with EAGAIN or a hard errno; receive(cap>0) delivers 1..cap next stream bytes, 0 (EOF) or -1; after a hard error no further call succeeds",
     "content tier: payloads <= LMAX bytes with symbolic bytes; legal announced lengths LMAX+1..65535 are covered for positions/lengths only by the length tier",
